@@ -1052,12 +1052,22 @@ class VBSClusteringManager:
             # joinTime is DeltaTimeQuarterSecond (1..255, units 0.25 s); 0 cannot
             # be encoded, so the last quarter second is reported as 1.
             join_time = max(1, min(127, int(remaining_s / 0.25)))
-            return {
+            container = {
                 "clusterJoinInfo": {
                     "clusterId": self._join_target_cluster_id or 0,
                     "joinTime": join_time,
                 }
             }
+            if self._leave_substate is _LeaveSubstate.NOTIFY:
+                # Leaving one cluster to join another: the leave indication of
+                # the previous membership keeps running next to the join intent.
+                container["clusterLeaveInfo"] = {
+                    "clusterId": self._leave_cluster_id or 0,
+                    "clusterLeaveReason": (
+                        self._leave_reason or ClusterLeaveReason.NOT_PROVIDED
+                    ).value,
+                }
+            return container
 
         if self._join_substate in (_JoinSubstate.CANCELLED, _JoinSubstate.FAILED):
             return {
